@@ -16,6 +16,11 @@ CLAIMS = {
          "the Exclusive lemma (Include/~Include matches exactly Include) is an SMT lemma. Both builds on every run.",
          TRUST + " IDs outside the build's range (>=64 in tiny) are excluded by precondition, as in the property's quantifier.",
          "contract-based deductive verification: WP/symbolic execution over go/ssa, obligations discharged by z3/cvc5"),
+ "C12": ("Both copies of subscribes() (ecs and listener) are proved equal to the documented rule subRule for all 2^8 trigger masks, all component restrictions (nil or any mask) and all relation-pointer cases, in both builds; "
+         "subscription() is proved bit-exact; lemma subMono proves that a larger subscription/restriction never withholds an event a smaller one selects; NewDispatch/AddListener are proved to maintain 'the Dispatch covers every sub-listener' (events superset, component superset or nil), "
+         "so by subMono the world never withholds an event from a Dispatch that a sub-listener selects; Dispatch.Notify is proved, by loop invariant over ghost notification counters, to call Notify on sub-listener k exactly when the rule selects the event for k, with the unchanged event; Callback accessors return the configured restriction.",
+         TRUST + " Listener.Subscriptions/Components are modelled as pure functions of the listener (A4); sub-listeners of one Dispatch are assumed pairwise distinct objects; Callback.Notify (a call through a func value) is not under contract. The world-side trigger computation at each notification site is checked under C11.",
+         "contract-based deductive verification: WP/symbolic execution over go/ssa, obligations discharged by z3/cvc5"),
 }
 
 NA = {
